@@ -13,8 +13,9 @@
     cycle makes on the trees Spyne builds (text '' is read back as no text).
 
     The primitive text codecs are a parameter ([leaf_codec]; C08 is about them, C01/LeafX.v
-    plugs the C08 models in).  Not modelled: polymorphism and xsi:type (C16), Attributes.default,
-    sub_name/sub_ns on members, AnyXml/AnyDict/AnyHtml/File/Enum members; the generators
+    plugs the C08 models in).  Members may carry another name / namespace on the wire
+    (Attributes.sub_name / sub_ns, looked up through the alternate-key table).  Not modelled:
+    polymorphism and xsi:type (C16), Attributes.default, AnyXml/AnyDict/AnyHtml/File/Enum members; the generators
     never produce them. *)
 From SpyneV Require Export C01.Univ Gen.XmlWire.
 
